@@ -9,8 +9,11 @@
 //              V4 ix (Store4Vec4 of the concrete type)  VE ix (StoreEvenVec4)
 //              C (continue with clone_with_alloc's result; answer carries PartialEq(orig, clone))
 //              L (append the listing of all non-initial entries)
+//              N v (only as the first op: start from a state in which every per-bucket counter
+//                   `num[..]` holds v, e.g. 65533 - a bucket that has already received that many
+//                   entries; kinds without counters ignore it)
 //        same request line is understood by ocaml/c19_driver.ml (the extracted model)
-//   P <q> <lgwin> <hint> <q95> <kinddesc> <maskbits> <seed> <style> <dlen> <tail> <rc> <p0> <p1> <s> <e> <allsplits> <nparts> <pseed> [<full>]
+//   P <q> <lgwin> <hint> <q95> <kinddesc> <maskbits> <seed> <style> <dlen> <tail> <rc> <p0> <p1> <s> <e> <allsplits> <nparts> <pseed> [<full> [<numinit>]]
 //        -> the property itself, decided on the real code only (independent of the model):
 //           OK checks=<n> | FAIL <what> ...
 //           full = 1 (default): bulk, range and the first partition are compared with PartialEq on
@@ -202,6 +205,16 @@ fn sparse_for(h: &mut UH, data: &[u8], mask: usize, ranges: &[(usize, usize)]) -
             }
         }
     }
+    if h10 {
+        // close to 2^32 the marker `invalid_pos_` (0 - window_mask as u32) is within max_backward of
+        // the current position and is followed like a stored position: its node (and node 0, which
+        // an unwritten child names) may be written by one-at-a-time Store and bulk alike
+        let inv = bucket_init(h) as usize;
+        for q in [inv, 0usize] {
+            sp.forest.push(2 * (q & wm));
+            sp.forest.push(2 * (q & wm) + 1);
+        }
+    }
     addrs.sort_unstable();
     addrs.dedup();
     let nlen = num_of(h).map(|x| x.len()).unwrap_or(0);
@@ -232,11 +245,11 @@ fn sparse_for(h: &mut UH, data: &[u8], mask: usize, ranges: &[(usize, usize)]) -
     sp
 }
 
-fn sparse_reset(h: &mut UH, sp: &Sparse) {
+fn sparse_reset(h: &mut UH, sp: &Sparse, numinit: u16) {
     let init = bucket_init(h);
     if let Some(n) = num_of(h) {
         for &i in &sp.num {
-            n[i] = 0;
+            n[i] = numinit;
         }
     }
     let b = buckets_of(h);
@@ -316,7 +329,7 @@ fn full_diff(a: &mut UH, b: &mut UH) -> String {
 
 /// canonical dump over the candidate slots: entries that differ from the table's initial value,
 /// in the order num, buckets, forest, increasing index.  hash = hmix chain over (table, idx, val).
-fn dump(h: &mut UH, sp: &Sparse, list: bool) -> String {
+fn dump(h: &mut UH, sp: &Sparse, list: bool, numinit: u16) -> String {
     let mut n = 0usize;
     let mut hs = 0u64;
     let mut listing = String::new();
@@ -330,7 +343,7 @@ fn dump(h: &mut UH, sp: &Sparse, list: bool) -> String {
     };
     if let Some(x) = num_of(h) {
         for &i in &sp.num {
-            if x[i] != 0 {
+            if x[i] != numinit {
                 add(0, i, x[i] as u64, &mut listing);
             }
         }
@@ -435,6 +448,7 @@ enum Op {
     VE(usize),
     C,
     L,
+    N(u16),
 }
 
 fn parse_ops(t: &[&str]) -> Option<Vec<Op>> {
@@ -473,6 +487,13 @@ fn parse_ops(t: &[&str]) -> Option<Vec<Op>> {
             "L" => {
                 v.push(Op::L);
                 i += 1;
+            }
+            "N" => {
+                if i != 0 {
+                    return None;
+                }
+                v.push(Op::N(t.get(i + 1)?.parse().ok()?));
+                i += 2;
             }
             _ => return None,
         }
@@ -541,20 +562,51 @@ fn apply(h: &mut UH, data: &[u8], mask: usize, op: &Op) -> Option<bool> {
             *h = c;
             return Some(eq);
         }
-        Op::L => {}
+        Op::L | Op::N(_) => {}
     }
     None
 }
 
 struct Pool {
     cfg: Cfg,
+    numinit: u16,
     work: UH,
     refh: UH,
     pristine: UH,
 }
+fn build_with(cfg: Cfg, numinit: u16) -> UH {
+    let mut h = build(cfg);
+    if numinit != 0 {
+        if let Some(n) = num_of(&mut h) {
+            for x in n.iter_mut() {
+                *x = numinit;
+            }
+        }
+    }
+    h
+}
 impl Pool {
-    fn new(cfg: Cfg) -> Pool {
-        Pool { cfg, work: build(cfg), refh: build(cfg), pristine: build(cfg) }
+    fn new(cfg: Cfg, numinit: u16) -> Pool {
+        Pool { cfg, numinit, work: build_with(cfg, numinit), refh: build_with(cfg, numinit), pristine: build_with(cfg, numinit) }
+    }
+}
+fn pool_for(pool: &mut Option<Pool>, cfg: Cfg, numinit: u16) {
+    if pool.as_ref().map(|p| p.cfg != cfg).unwrap_or(true) {
+        *pool = None;
+        *pool = Some(Pool::new(cfg, numinit));
+        return;
+    }
+    let p = pool.as_mut().unwrap();
+    if p.numinit != numinit {
+        // between lines all three hashers are in the pristine state: only the counters change
+        for h in [&mut p.work, &mut p.refh, &mut p.pristine] {
+            if let Some(n) = num_of(h) {
+                for x in n.iter_mut() {
+                    *x = numinit;
+                }
+            }
+        }
+        p.numinit = numinit;
     }
 }
 
@@ -602,10 +654,11 @@ fn do_x(pool: &mut Option<Pool>, t: &[&str]) -> String {
         Some(o) => o,
         None => return "BADREQ".to_string(),
     };
-    if pool.as_ref().map(|p| p.cfg != s.cfg).unwrap_or(true) {
-        *pool = None;
-        *pool = Some(Pool::new(s.cfg));
-    }
+    let numinit = match ops.first() {
+        Some(Op::N(v)) => *v,
+        _ => 0,
+    };
+    pool_for(pool, s.cfg, numinit);
     let p = pool.as_mut().unwrap();
     if describe(&p.pristine) != s.kind {
         return format!("KINDMISMATCH {}", describe(&p.pristine));
@@ -616,11 +669,11 @@ fn do_x(pool: &mut Option<Pool>, t: &[&str]) -> String {
     let r = run_ops(&mut p.work, &data, mask, &ops);
     let ans = match r {
         Err(e) => {
-            p.work = build(s.cfg);
+            p.work = build_with(s.cfg, numinit);
             return e;
         }
         Ok(ceq) => {
-            let d = dump(&mut p.work, &sp, list);
+            let d = dump(&mut p.work, &sp, list, numinit);
             match ceq {
                 Some(b) => {
                     let (head, rest) = match d.find(" |") {
@@ -633,11 +686,11 @@ fn do_x(pool: &mut Option<Pool>, t: &[&str]) -> String {
             }
         }
     };
-    sparse_reset(&mut p.work, &sp);
+    sparse_reset(&mut p.work, &sp, numinit);
     if p.work != p.pristine {
         // an update touched a slot outside the candidate regions
         let w = full_diff(&mut p.work, &mut p.pristine);
-        p.work = build(s.cfg);
+        p.work = build_with(s.cfg, numinit);
         return format!("{} STRAY {}", ans, w);
     }
     ans
@@ -654,10 +707,8 @@ fn do_p(pool: &mut Option<Pool>, t: &[&str]) -> String {
         _ => return "BADREQ".to_string(),
     };
     let fullmode = g(19).unwrap_or(1) != 0;
-    if pool.as_ref().map(|p| p.cfg != s.cfg).unwrap_or(true) {
-        *pool = None;
-        *pool = Some(Pool::new(s.cfg));
-    }
+    let numinit = g(20).unwrap_or(0) as u16;
+    pool_for(pool, s.cfg, numinit);
     let p = pool.as_mut().unwrap();
     if describe(&p.pristine) != s.kind {
         return format!("KINDMISMATCH {}", describe(&p.pristine));
@@ -678,8 +729,8 @@ fn do_p(pool: &mut Option<Pool>, t: &[&str]) -> String {
     let mut checks = 0usize;
     // reference: one at a time
     if let Err(e) = run_ops(&mut p.refh, &data, mask, &[prefix.clone(), Op::S(st, en)]) {
-        p.refh = build(s.cfg);
-        p.work = build(s.cfg);
+        p.refh = build_with(s.cfg, numinit);
+        p.work = build_with(s.cfg, numinit);
         return format!("REFPANIC {}", e);
     }
     // candidates
@@ -718,7 +769,7 @@ fn do_p(pool: &mut Option<Pool>, t: &[&str]) -> String {
         match run_ops(&mut p.work, &data, mask, &all) {
             Err(e) => {
                 fails.push(format!("{}:{}", name, e.replace(' ', "_")));
-                p.work = build(s.cfg);
+                p.work = build_with(s.cfg, numinit);
                 continue;
             }
             Ok(_) => {}
@@ -741,7 +792,7 @@ fn do_p(pool: &mut Option<Pool>, t: &[&str]) -> String {
                 fails.push(format!("clone:{}", full_diff(&mut c, &mut p.work)));
             }
         }
-        sparse_reset(&mut p.work, &sp);
+        sparse_reset(&mut p.work, &sp, numinit);
     }
     // the 4-at-a-time entry points of the concrete types (title-level: batched = one at a time)
     let _ = adv;
@@ -753,7 +804,7 @@ fn do_p(pool: &mut Option<Pool>, t: &[&str]) -> String {
             continue;
         }
         checks += 1;
-        sparse_reset(&mut p.refh, &sp);
+        sparse_reset(&mut p.refh, &sp, numinit);
         let mut rops = vec![prefix.clone()];
         for k in 0..4 {
             rops.push(Op::S(ix + k * step, ix + k * step + 1));
@@ -765,17 +816,17 @@ fn do_p(pool: &mut Option<Pool>, t: &[&str]) -> String {
                 if let Some(w) = sparse_diff(&mut p.work, &mut p.refh, &sp) {
                     fails.push(format!("{}:{}", if even { "evenvec4" } else { "vec4" }, w));
                 }
-                sparse_reset(&mut p.work, &sp);
+                sparse_reset(&mut p.work, &sp, numinit);
             }
             (a, b) => {
                 fails.push(format!("{}:panic:{:?}/{:?}", if even { "evenvec4" } else { "vec4" }, a.is_err(), b.is_err()));
-                p.work = build(s.cfg);
-                p.refh = build(s.cfg);
+                p.work = build_with(s.cfg, numinit);
+                p.refh = build_with(s.cfg, numinit);
             }
         }
     }
-    sparse_reset(&mut p.refh, &sp);
-    sparse_reset(&mut p.work, &sp);
+    sparse_reset(&mut p.refh, &sp, numinit);
+    sparse_reset(&mut p.work, &sp, numinit);
     if !fullmode {
         return if fails.is_empty() {
             format!("OK checks={}", checks)
@@ -786,11 +837,11 @@ fn do_p(pool: &mut Option<Pool>, t: &[&str]) -> String {
     }
     if p.work != p.pristine {
         fails.push(format!("stray-write(work):{}", full_diff(&mut p.work, &mut p.pristine)));
-        p.work = build(s.cfg);
+        p.work = build_with(s.cfg, numinit);
     }
     if p.refh != p.pristine {
         fails.push(format!("stray-write(ref):{}", full_diff(&mut p.refh, &mut p.pristine)));
-        p.refh = build(s.cfg);
+        p.refh = build_with(s.cfg, numinit);
     }
     if fails.is_empty() {
         format!("OK checks={}", checks)
